@@ -11,6 +11,7 @@ import (
 	"reflect"
 	"strings"
 
+	"github.com/launchdarkly/go-sdk-common/v3/ldattr"
 	"github.com/launchdarkly/go-sdk-common/v3/ldcontext"
 	"github.com/launchdarkly/go-sdk-common/v3/ldtime"
 	"github.com/launchdarkly/go-server-sdk-evaluation/v3/ldbuilders"
@@ -88,16 +89,33 @@ func buildWithBuilders(w *WFlag) ldmodel.FeatureFlag {
 	}
 	for i := range w.Rules {
 		r := &w.Rules[i]
-		rb := ldbuilders.NewRuleBuilder().ID(r.ID).TrackEvents(r.Track).VariationOrRollout(r.VR.build())
-		cls := buildClauses(r.Clauses)
+		rb := ldbuilders.NewRuleBuilder().ID(r.ID).TrackEvents(r.Track)
+		if vr, ok := vrWithBuilders(&r.VR); ok && vr.Variation.IsDefined() {
+			rb.Variation(vr.Variation.IntValue())
+		} else if ok {
+			rb.VariationOrRollout(vr)
+		} else {
+			rb.VariationOrRollout(r.VR.build())
+		}
+		cls := clausesWithBuilders(r.Clauses)
 		rb.Clauses(cls...)
 		b.AddRule(rb)
 	}
-	b.Fallthrough(w.FT.build())
-	if w.Off != nil {
-		b.OffVariation(*w.Off)
+	if vr, ok := vrWithBuilders(&w.FT); ok && vr.Variation.IsDefined() {
+		b.FallthroughVariation(vr.Variation.IntValue())
+	} else if ok {
+		b.Fallthrough(vr)
+	} else {
+		b.Fallthrough(w.FT.build())
 	}
-	b.Variations(jvsToLD(w.Vars)...)
+	if len(w.Vars) == 1 && w.Off != nil && *w.Off == 0 && !w.On {
+		b.SingleVariation(w.Vars[0].toLD()) // = Variations(v).OffVariation(0).On(false)
+	} else {
+		if w.Off != nil {
+			b.OffVariation(*w.Off)
+		}
+		b.Variations(jvsToLD(w.Vars)...)
+	}
 	if w.Meta.CSA.Explicit {
 		b.ClientSideUsingEnvironmentID(w.Meta.CSA.Env).ClientSideUsingMobileKey(w.Meta.CSA.Mobile)
 	}
@@ -119,6 +137,81 @@ func buildWithBuilders(w *WFlag) ldmodel.FeatureFlag {
 	return b.Build()
 }
 
+// ---- construction through the helper functions of ldbuilders, wherever the wire value is exactly
+// what a helper produces (otherwise the plain struct literal is used) ----
+
+func clauseWithBuilders(w *WClause) ldmodel.Clause {
+	vals := jvsToLD(w.Vals)
+	var cl ldmodel.Clause
+	switch {
+	case w.Op == "segmentMatch" && w.CK == "" && w.Attr.Ctor == "" && len(w.Vals) > 0 && allStrings(w.Vals):
+		keys := make([]string, len(w.Vals))
+		for i, v := range w.Vals {
+			keys[i] = v.S
+		}
+		cl = ldbuilders.SegmentMatchClause(keys...)
+	case w.Attr.Ctor == "lit" && w.CK == "":
+		cl = ldbuilders.Clause(w.Attr.Arg, ldmodel.Operator(w.Op), vals...)
+	case w.Attr.Ctor == "lit":
+		cl = ldbuilders.ClauseWithKind(ldcontext.Kind(w.CK), w.Attr.Arg, ldmodel.Operator(w.Op), vals...)
+	case w.Attr.Ctor == "ref" && w.CK == "":
+		cl = ldbuilders.ClauseRef(ldattr.NewRef(w.Attr.Arg), ldmodel.Operator(w.Op), vals...)
+	case w.Attr.Ctor == "ref":
+		cl = ldbuilders.ClauseRefWithKind(ldcontext.Kind(w.CK), ldattr.NewRef(w.Attr.Arg), ldmodel.Operator(w.Op), vals...)
+	default:
+		return w.build()
+	}
+	if w.Neg {
+		cl = ldbuilders.Negate(cl)
+	}
+	return cl
+}
+
+func allStrings(vs []JV) bool {
+	for _, v := range vs {
+		if v.K != 's' {
+			return false
+		}
+	}
+	return true
+}
+
+func clausesWithBuilders(ws []WClause) []ldmodel.Clause {
+	if ws == nil {
+		return nil
+	}
+	out := make([]ldmodel.Clause, len(ws))
+	for i := range ws {
+		out[i] = clauseWithBuilders(&ws[i])
+	}
+	return out
+}
+
+// vrWithBuilders: ok=false when no helper produces exactly this value.
+func vrWithBuilders(w *WVR) (ldmodel.VariationOrRollout, bool) {
+	buckets := func() []ldmodel.WeightedVariation {
+		out := []ldmodel.WeightedVariation{}
+		for _, v := range w.RO.Vars {
+			if v.U {
+				out = append(out, ldbuilders.BucketUntracked(v.V, v.W))
+			} else {
+				out = append(out, ldbuilders.Bucket(v.V, v.W))
+			}
+		}
+		return out
+	}
+	plainRollout := w.RO.CK == "" && w.RO.By.Ctor == "" && len(w.RO.Vars) > 0
+	switch {
+	case w.V != nil && w.RO.Kind == "" && w.RO.CK == "" && w.RO.By.Ctor == "" && w.RO.Seed == nil && len(w.RO.Vars) == 0:
+		return ldbuilders.Variation(*w.V), true
+	case w.V == nil && plainRollout && w.RO.Kind == "rollout" && w.RO.Seed == nil:
+		return ldbuilders.Rollout(buckets()...), true
+	case w.V == nil && plainRollout && w.RO.Kind == "experiment":
+		return ldbuilders.Experiment(optInt(w.RO.Seed), buckets()...), true
+	}
+	return ldmodel.VariationOrRollout{}, false
+}
+
 func buildSegmentWithBuilders(w *WSegment) ldmodel.Segment {
 	b := ldbuilders.NewSegmentBuilder(w.Key).Version(w.Version).Salt(w.Salt).Included(w.Inc...).Excluded(w.Exc...).
 		Unbounded(w.Unb).UnboundedContextKind(ldcontext.Kind(w.UnbK))
@@ -133,11 +226,13 @@ func buildSegmentWithBuilders(w *WSegment) ldmodel.Segment {
 	}
 	for i := range w.Rules {
 		r := &w.Rules[i]
-		rb := ldbuilders.NewSegmentRuleBuilder().ID(r.ID).Clauses(buildClauses(r.Clauses)...).RolloutContextKind(ldcontext.Kind(r.RCK))
+		rb := ldbuilders.NewSegmentRuleBuilder().ID(r.ID).Clauses(clausesWithBuilders(r.Clauses)...).RolloutContextKind(ldcontext.Kind(r.RCK))
 		if r.Weight != nil {
 			rb.Weight(*r.Weight)
 		}
-		if r.By.Ctor != "" {
+		if r.By.Ctor == "lit" {
+			rb.BucketBy(r.By.Arg)
+		} else if r.By.Ctor != "" {
 			rb.BucketByRef(r.By.build())
 		}
 		b.AddRule(rb)
